@@ -76,3 +76,80 @@ contract("History.get_file_undo_list", source=M + "History.get_file_undo_list", 
              "forall(lambda t: implies(0 <= t and t < len(_comp), exists(lambda k: 0 <= k and k < i and self._undo_list[k] == _comp[t]) and resource in res_of(_comp[t])))",
              "forall(lambda k: implies(0 <= k and k < i and resource in res_of(self._undo_list[k]), self._undo_list[k] in _comp))"]}},
          note="exactly the recorded changes that announce the resource, none missing")
+
+# ---- CPython cross-check of the dependency search on real _FindChangeDependencies objects with stand-in changes ---------------------------------
+class _XcR2:
+    def __init__(self, path, folder=False):
+        self.path, self._folder = path, folder
+
+    def is_folder(self):
+        return self._folder
+
+    def contains(self, other):
+        return self is not other and (self.path == "" or other.path.startswith(self.path + "/"))
+
+
+class _XcC2:
+    def __init__(self, name, resources):
+        self.name, self._res = name, resources
+
+    def get_changed_resources(self):
+        return list(self._res)
+
+    def __repr__(self):
+        return self.name
+
+
+def _xc_dep_domain(tier, seed):
+    import itertools
+    n_shapes = 6
+    for n in range(1, 5):
+        for combo in itertools.product(range(n_shapes), repeat=n):
+            if n >= 4 and hash(combo) % 5:
+                continue
+            yield combo
+
+
+def _xc_dep_build(combo):
+    from rope.base import history
+    shapes = [["a.py"], ["pkg/m.py"], ["pkg"], ["b.py"], ["a.py", "pkg"], ["newpkg/m.py", "b.py"]]
+    rs = {p: _XcR2(p, p in ("pkg", "newpkg")) for p in ("a.py", "pkg", "pkg/m.py", "b.py", "newpkg/m.py", "newpkg")}
+    changes = [_XcC2("c%d" % i, [rs[p] for p in shapes[k]]) for i, k in enumerate(combo)]
+    return {"self": history._FindChangeDependencies(changes), "__dom_Resource__": list(rs.values())}
+
+
+def _xc_related(r, c):
+    return r is c or (r.is_folder() and r.contains(c)) or (c.is_folder() and c.contains(r))
+
+
+bounded_check(name="c11-dependencies-native", props=["C11"], contract="_FindChangeDependencies.__call__", build=_xc_dep_build, domain=_xc_dep_domain, exhaustive=True,
+              env={"res_of": lambda c: c.get_changed_resources(), "related": _xc_related},
+              label="CPython cross-check: the dependency-search contract (taken along = touches something already collected; left in force = unrelated to the chosen "
+                    "change) on real objects: every list of <= 3 (a fifth of those of 4) changes over files, a package, a module inside it and a second package")
+
+
+def _xc_dep_closure(combo):
+    """native-only clause (not among the proved ones): a change left in force is unrelated to EVERY earlier change that is taken along
+    (the dependency closure is complete with respect to list order) -- evaluated on the real __call__"""
+    d = _xc_dep_build(combo)
+    finder = d["self"]
+    cl = list(finder.change_list)
+    result = finder()
+    taken = {id(c) for c in result}
+    for q in range(1, len(cl)):
+        if id(cl[q]) in taken:
+            continue
+        for p in range(0, q):
+            if id(cl[p]) not in taken:
+                continue
+            for a in cl[q].get_changed_resources():
+                for b in cl[p].get_changed_resources():
+                    if _xc_related(a, b):
+                        return {"status": "fail", "clause": "a change left in force is unrelated to every earlier change taken along",
+                                "why": "%r stays in force although it touches %s, which is related to %s of the earlier undone %r" % (cl[q], a.path, b.path, cl[p]),
+                                "observed": {"taken": [repr(c) for c in result]}}
+    return {"status": "ok", "nontrivial": len(result) < len(cl)}
+
+
+bounded_check(name="c11-dependency-closure-native", props=["C11"], fn=_xc_dep_closure, domain=_xc_dep_domain, exhaustive=True,
+              label="native only (clause not proved): on the same domain, nothing left in force touches a resource related to an EARLIER change that is undone")
